@@ -260,13 +260,13 @@ impl Property for C03 {
         320
     }
     fn required_counters(&self) -> Vec<&'static str> {
-        vec!["walks", "under_path", "under_glob", "neg_any", "neg_empty", "tree_discarded", "partially_matched_directory", "with_max_depth", "partition_pairs_checked", "negation_matches_directory_link", "read_target_walks"]
+        vec!["walks", "under_path", "under_glob", "neg_any", "neg_empty", "tree_discarded", "partially_matched_directory", "with_max_depth", "partition_pairs_checked", "negation_matches_directory_link", "read_target_walks", "negation_matches_non_utf8_name"]
     }
     fn decode(&self, t: &mut Tape) -> Case {
         // symbolic links (to files and directories) in a third of the trees: under the default
         // link behaviour they are leaves, also when a negation discards them "as a tree"
         let links = t.chance(85);
-        let tree = gen_tree(t, &TreeCfg { links, ..TreeCfg::default() });
+        let tree = gen_tree(t, &TreeCfg { links, non_utf8: true, ..TreeCfg::default() });
         let base = if t.chance(60) { gen_base(t, &tree) } else { Base::Abs };
         let under = if t.chance(130) {
             Under::Path
@@ -453,7 +453,14 @@ impl Property for C03 {
         let mut plain_errors: BTreeMap<Item, usize> = BTreeMap::new();
         for it in &plain {
             let keep = match &it.rel {
-                Some(rel) => !npat.is_match(rel),
+                Some(rel) => {
+                    let m = npat.is_match(rel);
+                    if m && rel.contains('\u{FFFD}') {
+                        // a name that is not valid UTF-8 is matched through its lossy text
+                        st.count("negation_matches_non_utf8_name");
+                    }
+                    !m
+                },
                 None => {
                     if case.follow {
                         // link errors are not entries: required neither to stay nor to go
